@@ -884,3 +884,81 @@ def trmm(a):
 @row('trsm', _TRM_KW)
 def trsm(a):
     return _trm(a, {'d': 'dtrsm_', 'z': 'ztrsm_'})
+
+
+# ------------------------------------------------ value of complex dot / dotu
+def _signed_terms(t, sign=1, imag=False, out=None):
+    """flattens a sum built from the engine's uninterpreted fadd / fsub /
+    fmul(_Complex_I, .) into [(term, sign, imaginary?)]"""
+    out = [] if out is None else out
+    nm = t.decl().name() if z3.is_app(t) else ''
+    if nm == 'fadd' and t.num_args() == 2:
+        _signed_terms(t.arg(0), sign, imag, out)
+        _signed_terms(t.arg(1), sign, imag, out)
+    elif nm == 'fsub' and t.num_args() == 2:
+        _signed_terms(t.arg(0), sign, imag, out)
+        _signed_terms(t.arg(1), -sign, imag, out)
+    elif nm == 'fmul' and t.num_args() == 2 and any(
+            str(t.arg(i)) == '_Complex_I' for i in (0, 1)):
+        other = t.arg(1) if str(t.arg(0)) == '_Complex_I' else t.arg(0)
+        if imag:
+            out.append((t, sign, imag))      # i*i: not expected
+        else:
+            _signed_terms(other, sign, True, out)
+    else:
+        out.append((t, sign, imag))
+    return out
+
+
+def complex_dot_value(conjugate):
+    """the complex inner product computed with four real dot products on the
+    interleaved storage: x^H y = (xr.yr + xi.yi) + i (xr.yi - xi.yr) for dot,
+    x^T y = (xr.yr - xi.yi) + i (xr.yi + xi.yr) for dotu; each of the four
+    calls is identified by the parity of its operand addresses"""
+    def post(ex, finished, extra_obs):
+        from engine.cvc.exec import Oblig, FltV, NULL
+        n = 0
+        for st, kind, val in finished:
+            if kind != 'return' or val is NULL or getattr(
+                    val, 'obj', None) is None:
+                continue
+            cv = val.obj.extra.get('cval')
+            recs = [r for r in st.calls if r.name == 'ddot_' and getattr(
+                r, 'ret', None) is not None]
+            if not cv or len(recs) != 4 or not isinstance(cv[0], FltV):
+                continue
+            n += 1
+            cls = {}
+            okc = True
+            for r in recs:
+                px, py = r.args['ptrs']['x'], r.args['ptrs']['y']
+                # element offsets are in doubles: even = real part
+                ex_ = ex.check(r.pc, [px.off % 16 != 0]) == z3.unsat
+                ox_ = ex.check(r.pc, [px.off % 16 != 8]) == z3.unsat
+                ey_ = ex.check(r.pc, [py.off % 16 != 0]) == z3.unsat
+                oy_ = ex.check(r.pc, [py.off % 16 != 8]) == z3.unsat
+                if not ((ex_ or ox_) and (ey_ or oy_)):
+                    okc = False
+                    continue
+                cls[('r' if ex_ else 'i') + ('r' if ey_ else 'i')] = \
+                    r.ret.t.sexpr()
+            want = {('rr', 1, False), ('ii', 1 if conjugate else -1, False),
+                    ('ri', 1, True), ('ir', -1 if conjugate else 1, True)}
+            got = set()
+            inv = {v: k for k, v in cls.items()}
+            for t, sg, im in _signed_terms(cv[0].t):
+                got.add((inv.get(t.sexpr(), t.sexpr()), sg, im))
+            ok = okc and len(cls) == 4 and got == want
+            text = ('the complex value returned is (xr.yr %s xi.yi) + i '
+                    '(xr.yi %s xi.yr), each real inner product taken on the '
+                    'real / imaginary parts its operand addresses select' % (
+                        ('+', '-') if conjugate else ('-', '+')))
+            extra_obs.append(Oblig('%s:value:%s' % (ex.fname, text), 'value',
+                                   list(st.path()), z3.BoolVal(ok), text,
+                                   recs[0].line))
+        return n
+    return post
+
+
+VALUE_POSTS = {'dot': complex_dot_value(True),
+               'dotu': complex_dot_value(False)}
